@@ -1202,3 +1202,691 @@ pub fn self_check() -> Result<usize, String> {
     }
     Ok(n)
 }
+
+// ---------------------------------------------------------------------------
+// Encoder, written from docs/binary.md, exposing every degree of freedom the
+// document leaves open.
+
+pub mod enc {
+    use super::*;
+    use crate::plan::{PVal, Plan, Tgt};
+
+    #[derive(Clone, Copy, Debug, PartialEq, Eq, serde::Serialize, serde::Deserialize)]
+    pub enum Comp {
+        None,
+        /// LZ4 block consisting of literals only (own encoder)
+        Lz4Literal,
+        /// LZ4 block produced by liblz4
+        Lz4,
+        /// Zstandard frame made of raw blocks (own encoder)
+        ZstdRaw,
+        /// Zstandard frame produced by libzstd's streaming encoder
+        Zstd,
+    }
+
+    pub const COMPS: [Comp; 5] = [Comp::None, Comp::Lz4Literal, Comp::Lz4, Comp::ZstdRaw, Comp::Zstd];
+
+    pub fn lz4_literal_block(data: &[u8]) -> Vec<u8> {
+        let mut out = Vec::new();
+        let n = data.len();
+        if n < 15 {
+            out.push((n as u8) << 4);
+        } else {
+            out.push(0xF0);
+            let mut rest = n - 15;
+            while rest >= 255 {
+                out.push(255);
+                rest -= 255;
+            }
+            out.push(rest as u8);
+        }
+        out.extend_from_slice(data);
+        out
+    }
+
+    pub fn zstd_raw_frame(data: &[u8]) -> Vec<u8> {
+        let mut out = vec![0x28, 0xb5, 0x2f, 0xfd];
+        // Frame_Header_Descriptor: FCS flag 2 (4-byte content size), Single_Segment
+        out.push((2 << 6) | (1 << 5));
+        out.extend_from_slice(&(data.len() as u32).to_le_bytes());
+        let max = 100_000usize;
+        let mut blocks: Vec<&[u8]> = data.chunks(max).collect();
+        if blocks.is_empty() {
+            blocks.push(&[]);
+        }
+        let last = blocks.len() - 1;
+        for (i, b) in blocks.iter().enumerate() {
+            let header: u32 = ((b.len() as u32) << 3) | ((i == last) as u32);
+            out.extend_from_slice(&header.to_le_bytes()[..3]);
+            out.extend_from_slice(b);
+        }
+        out
+    }
+
+    pub fn frame_chunk(name: &[u8; 4], data: &[u8], comp: Comp) -> Vec<u8> {
+        let mut out = name.to_vec();
+        let body: Option<Vec<u8>> = match comp {
+            Comp::None => None,
+            Comp::Lz4Literal => Some(lz4_literal_block(data)),
+            Comp::Lz4 => Some(lz4::block::compress(data, None, false).expect("lz4")),
+            Comp::ZstdRaw => Some(zstd_raw_frame(data)),
+            Comp::Zstd => {
+                use std::io::Write;
+                let mut e = zstd::stream::write::Encoder::new(Vec::new(), 3).expect("zstd");
+                e.write_all(data).expect("zstd");
+                Some(e.finish().expect("zstd"))
+            }
+        };
+        match body {
+            // "If Compressed Length is zero, Chunk Data contains Uncompressed Length bytes"
+            None => {
+                out.extend_from_slice(&0u32.to_le_bytes());
+                out.extend_from_slice(&(data.len() as u32).to_le_bytes());
+                out.extend_from_slice(&0u32.to_le_bytes());
+                out.extend_from_slice(data);
+            }
+            Some(b) => {
+                out.extend_from_slice(&(b.len() as u32).to_le_bytes());
+                out.extend_from_slice(&(data.len() as u32).to_le_bytes());
+                out.extend_from_slice(&0u32.to_le_bytes());
+                out.extend_from_slice(&b);
+            }
+        }
+        out
+    }
+
+    fn put_str(o: &mut Vec<u8>, s: &[u8]) {
+        o.extend_from_slice(&(s.len() as u32).to_le_bytes());
+        o.extend_from_slice(s);
+    }
+
+    fn interleave(vals: &[Vec<u8>], w: usize) -> Vec<u8> {
+        let n = vals.len();
+        let mut o = vec![0u8; n * w];
+        for (i, v) in vals.iter().enumerate() {
+            for j in 0..w {
+                o[i + n * j] = v[j];
+            }
+        }
+        o
+    }
+
+    pub fn put_int32s(o: &mut Vec<u8>, v: &[i32]) {
+        let b: Vec<Vec<u8>> = v.iter().map(|x| transform32(*x).to_be_bytes().to_vec()).collect();
+        o.extend(interleave(&b, 4));
+    }
+    pub fn put_u32s(o: &mut Vec<u8>, v: &[u32]) {
+        let b: Vec<Vec<u8>> = v.iter().map(|x| x.to_be_bytes().to_vec()).collect();
+        o.extend(interleave(&b, 4));
+    }
+    pub fn put_f32s(o: &mut Vec<u8>, v: &[f32]) {
+        // sign bit moved to the end: rotate left by one
+        let b: Vec<Vec<u8>> = v.iter().map(|x| { let t = x.to_bits(); ((t << 1) | (t >> 31)).to_be_bytes().to_vec() }).collect();
+        o.extend(interleave(&b, 4));
+    }
+    pub fn put_int64s(o: &mut Vec<u8>, v: &[i64]) {
+        let b: Vec<Vec<u8>> = v.iter().map(|x| transform64(*x).to_be_bytes().to_vec()).collect();
+        o.extend(interleave(&b, 8));
+    }
+    pub fn put_referents(o: &mut Vec<u8>, v: &[i32]) {
+        let mut d = Vec::with_capacity(v.len());
+        let mut last = 0i32;
+        for x in v {
+            d.push(x.wrapping_sub(last));
+            last = *x;
+        }
+        put_int32s(o, &d);
+    }
+
+    fn put_cframes(o: &mut Vec<u8>, v: &[CFrame]) {
+        for c in v {
+            match rotation_id(&c.orientation) {
+                Some(id) => o.push(id),
+                None => {
+                    o.push(0);
+                    for r in [&c.orientation.x, &c.orientation.y, &c.orientation.z] {
+                        o.extend_from_slice(&r.x.to_bits().to_le_bytes());
+                        o.extend_from_slice(&r.y.to_bits().to_le_bytes());
+                        o.extend_from_slice(&r.z.to_bits().to_le_bytes());
+                    }
+                }
+            }
+        }
+        put_f32s(o, &v.iter().map(|c| c.position.x).collect::<Vec<_>>());
+        put_f32s(o, &v.iter().map(|c| c.position.y).collect::<Vec<_>>());
+        put_f32s(o, &v.iter().map(|c| c.position.z).collect::<Vec<_>>());
+    }
+
+    /// The wire type id the encoder uses for a value.
+    pub fn type_id_of(v: &PVal) -> Option<u8> {
+        Some(match v {
+            PVal::Ref(_) => 0x13,
+            PVal::Shared(_) => 0x1c,
+            PVal::ContentObj(_) => 0x22,
+            PVal::V(v) => match v {
+                Variant::String(_) | Variant::BinaryString(_) | Variant::ContentId(_) | Variant::Tags(_) | Variant::Attributes(_) | Variant::MaterialColors(_) => 0x01,
+                Variant::Bool(_) => 0x02,
+                Variant::Int32(_) => 0x03,
+                Variant::Float32(_) => 0x04,
+                Variant::Float64(_) => 0x05,
+                Variant::UDim(_) => 0x06,
+                Variant::UDim2(_) => 0x07,
+                Variant::Ray(_) => 0x08,
+                Variant::Faces(_) => 0x09,
+                Variant::Axes(_) => 0x0a,
+                Variant::BrickColor(_) => 0x0b,
+                Variant::Color3(_) => 0x0c,
+                Variant::Vector2(_) => 0x0d,
+                Variant::Vector3(_) => 0x0e,
+                Variant::CFrame(_) => 0x10,
+                Variant::Enum(_) => 0x12,
+                Variant::Vector3int16(_) => 0x14,
+                Variant::NumberSequence(_) => 0x15,
+                Variant::ColorSequence(_) => 0x16,
+                Variant::NumberRange(_) => 0x17,
+                Variant::Rect(_) => 0x18,
+                Variant::PhysicalProperties(_) => 0x19,
+                Variant::Color3uint8(_) => 0x1a,
+                Variant::Int64(_) => 0x1b,
+                Variant::OptionalCFrame(_) => 0x1e,
+                Variant::UniqueId(_) => 0x1f,
+                Variant::Font(_) => 0x20,
+                Variant::Content(_) => 0x22,
+                _ => return None,
+            },
+        })
+    }
+
+    /// Encodes one column of values (all of one wire type). `referent_of`
+    /// maps a plan node to its file referent; `sstr_index` a content to its index.
+    pub fn encode_values(
+        o: &mut Vec<u8>,
+        type_id: u8,
+        vals: &[&PVal],
+        referent_of: &dyn Fn(&Tgt) -> i32,
+        sstr_index: &dyn Fn(&[u8]) -> u32,
+        sw: Switches,
+    ) -> Result<(), String> {
+        macro_rules! get {
+            ($pat:pat => $e:expr) => {{
+                let mut out = Vec::new();
+                for v in vals {
+                    match v {
+                        PVal::V($pat) => out.push($e),
+                        other => return Err(format!("mixed column: {:?}", other)),
+                    }
+                }
+                out
+            }};
+        }
+        match type_id {
+            0x01 => {
+                for v in vals {
+                    match v {
+                        PVal::V(Variant::String(s)) => put_str(o, s.as_bytes()),
+                        PVal::V(Variant::BinaryString(b)) => put_str(o, b.as_ref()),
+                        PVal::V(Variant::ContentId(c)) => put_str(o, c.as_str().as_bytes()),
+                        PVal::V(Variant::Tags(t)) => put_str(o, &t.encode()),
+                        PVal::V(Variant::MaterialColors(m)) => put_str(o, &m.encode()),
+                        PVal::V(Variant::Attributes(a)) => {
+                            let entries: Vec<(String, Variant)> = a.iter().map(|(k, v)| (k.clone(), v.clone())).collect();
+                            put_str(o, &crate::c14::specattr::encode(&entries).ok_or("attribute type")?);
+                        }
+                        other => return Err(format!("mixed column: {:?}", other)),
+                    }
+                }
+            }
+            0x02 => o.extend(get!(Variant::Bool(b) => *b as u8)),
+            0x03 => put_int32s(o, &get!(Variant::Int32(i) => *i)),
+            0x04 => put_f32s(o, &get!(Variant::Float32(f) => *f)),
+            0x05 => {
+                for f in get!(Variant::Float64(f) => *f) {
+                    o.extend_from_slice(&f.to_bits().to_le_bytes());
+                }
+            }
+            0x06 => {
+                let u = get!(Variant::UDim(u) => *u);
+                put_f32s(o, &u.iter().map(|x| x.scale).collect::<Vec<_>>());
+                put_int32s(o, &u.iter().map(|x| x.offset).collect::<Vec<_>>());
+            }
+            0x07 => {
+                let u = get!(Variant::UDim2(u) => *u);
+                put_f32s(o, &u.iter().map(|x| x.x.scale).collect::<Vec<_>>());
+                put_f32s(o, &u.iter().map(|x| x.y.scale).collect::<Vec<_>>());
+                put_int32s(o, &u.iter().map(|x| x.x.offset).collect::<Vec<_>>());
+                put_int32s(o, &u.iter().map(|x| x.y.offset).collect::<Vec<_>>());
+            }
+            0x08 => {
+                for r in get!(Variant::Ray(r) => *r) {
+                    for f in [r.origin.x, r.origin.y, r.origin.z, r.direction.x, r.direction.y, r.direction.z] {
+                        o.extend_from_slice(&f.to_bits().to_le_bytes());
+                    }
+                }
+            }
+            0x09 => {
+                for f in get!(Variant::Faces(f) => f.bits()) {
+                    o.push(if sw.faces_impl {
+                        f
+                    } else {
+                        // rbx_types bits Right=1 Top=2 Back=4 Left=8 Bottom=16 Front=32 -> document bits Front=1 Bottom=2 Left=4 Back=8 Top=16 Right=32
+                        let mut r = 0u8;
+                        if f & 32 != 0 { r |= 1; }
+                        if f & 16 != 0 { r |= 2; }
+                        if f & 8 != 0 { r |= 4; }
+                        if f & 4 != 0 { r |= 8; }
+                        if f & 2 != 0 { r |= 16; }
+                        if f & 1 != 0 { r |= 32; }
+                        r
+                    });
+                }
+            }
+            0x0a => o.extend(get!(Variant::Axes(a) => a.bits())),
+            0x0b => put_u32s(o, &get!(Variant::BrickColor(b) => *b as u16 as u32)),
+            0x0c => {
+                let c = get!(Variant::Color3(c) => *c);
+                put_f32s(o, &c.iter().map(|x| x.r).collect::<Vec<_>>());
+                put_f32s(o, &c.iter().map(|x| x.g).collect::<Vec<_>>());
+                put_f32s(o, &c.iter().map(|x| x.b).collect::<Vec<_>>());
+            }
+            0x0d => {
+                let c = get!(Variant::Vector2(c) => *c);
+                put_f32s(o, &c.iter().map(|x| x.x).collect::<Vec<_>>());
+                put_f32s(o, &c.iter().map(|x| x.y).collect::<Vec<_>>());
+            }
+            0x0e => {
+                let c = get!(Variant::Vector3(c) => *c);
+                put_f32s(o, &c.iter().map(|x| x.x).collect::<Vec<_>>());
+                put_f32s(o, &c.iter().map(|x| x.y).collect::<Vec<_>>());
+                put_f32s(o, &c.iter().map(|x| x.z).collect::<Vec<_>>());
+            }
+            0x10 => put_cframes(o, &get!(Variant::CFrame(c) => *c)),
+            0x12 => put_u32s(o, &get!(Variant::Enum(e) => e.to_u32())),
+            0x13 => {
+                let mut r = Vec::new();
+                for v in vals {
+                    match v {
+                        PVal::Ref(t) => r.push(referent_of(t)),
+                        other => return Err(format!("mixed column: {:?}", other)),
+                    }
+                }
+                put_referents(o, &r);
+            }
+            0x14 => {
+                for v in get!(Variant::Vector3int16(v) => *v) {
+                    o.extend_from_slice(&v.x.to_le_bytes());
+                    o.extend_from_slice(&v.y.to_le_bytes());
+                    o.extend_from_slice(&v.z.to_le_bytes());
+                }
+            }
+            0x15 => {
+                for s in get!(Variant::NumberSequence(s) => s.clone()) {
+                    o.extend_from_slice(&(s.keypoints.len() as u32).to_le_bytes());
+                    for k in &s.keypoints {
+                        for f in [k.time, k.value, k.envelope] {
+                            o.extend_from_slice(&f.to_bits().to_le_bytes());
+                        }
+                    }
+                }
+            }
+            0x16 => {
+                for s in get!(Variant::ColorSequence(s) => s.clone()) {
+                    o.extend_from_slice(&(s.keypoints.len() as u32).to_le_bytes());
+                    for k in &s.keypoints {
+                        for f in [k.time, k.color.r, k.color.g, k.color.b, 0.0] {
+                            o.extend_from_slice(&f.to_bits().to_le_bytes());
+                        }
+                    }
+                }
+            }
+            0x17 => {
+                for r in get!(Variant::NumberRange(r) => *r) {
+                    o.extend_from_slice(&r.min.to_bits().to_le_bytes());
+                    o.extend_from_slice(&r.max.to_bits().to_le_bytes());
+                }
+            }
+            0x18 => {
+                let r = get!(Variant::Rect(r) => *r);
+                put_f32s(o, &r.iter().map(|x| x.min.x).collect::<Vec<_>>());
+                put_f32s(o, &r.iter().map(|x| x.min.y).collect::<Vec<_>>());
+                put_f32s(o, &r.iter().map(|x| x.max.x).collect::<Vec<_>>());
+                put_f32s(o, &r.iter().map(|x| x.max.y).collect::<Vec<_>>());
+            }
+            0x19 => {
+                for p in get!(Variant::PhysicalProperties(p) => *p) {
+                    match p {
+                        PhysicalProperties::Default => o.push(0),
+                        PhysicalProperties::Custom(c) => {
+                            o.push(1);
+                            for f in [c.density, c.friction, c.elasticity, c.friction_weight, c.elasticity_weight] {
+                                o.extend_from_slice(&f.to_bits().to_le_bytes());
+                            }
+                        }
+                    }
+                }
+            }
+            0x1a => {
+                let c = get!(Variant::Color3uint8(c) => *c);
+                o.extend(c.iter().map(|x| x.r));
+                o.extend(c.iter().map(|x| x.g));
+                o.extend(c.iter().map(|x| x.b));
+            }
+            0x1b => put_int64s(o, &get!(Variant::Int64(i) => *i)),
+            0x1c => {
+                let mut idx = Vec::new();
+                for v in vals {
+                    match v {
+                        PVal::Shared(b) => idx.push(sstr_index(b)),
+                        other => return Err(format!("mixed column: {:?}", other)),
+                    }
+                }
+                put_u32s(o, &idx);
+            }
+            0x1e => {
+                let v = get!(Variant::OptionalCFrame(c) => *c);
+                o.push(0x10);
+                let cfs: Vec<CFrame> = v.iter().map(|c| c.unwrap_or(CFrame::new(Vector3::new(0.0, 0.0, 0.0), Matrix3::identity()))).collect();
+                put_cframes(o, &cfs);
+                o.push(0x02);
+                o.extend(v.iter().map(|c| c.is_some() as u8));
+            }
+            0x1f => {
+                let u = get!(Variant::UniqueId(u) => *u);
+                let blobs: Vec<Vec<u8>> = u
+                    .iter()
+                    .map(|u| {
+                        let mut b = Vec::with_capacity(16);
+                        if sw.uniqueid_impl {
+                            b.extend_from_slice(&u.index().to_be_bytes());
+                            b.extend_from_slice(&u.time().to_be_bytes());
+                            b.extend_from_slice(&u.random().rotate_left(1).to_be_bytes());
+                        } else {
+                            b.extend_from_slice(&u.index().to_le_bytes());
+                            b.extend_from_slice(&u.time().to_le_bytes());
+                            b.extend_from_slice(&u.random().to_le_bytes());
+                        }
+                        b
+                    })
+                    .collect();
+                o.extend(interleave(&blobs, 16));
+            }
+            0x20 => {
+                for f in get!(Variant::Font(f) => f.clone()) {
+                    put_str(o, f.family.as_bytes());
+                    o.extend_from_slice(&f.weight.as_u16().to_le_bytes());
+                    o.push(f.style.as_u8());
+                    put_str(o, f.cached_face_id.as_deref().unwrap_or("").as_bytes());
+                }
+            }
+            0x22 => {
+                let mut types: Vec<u32> = Vec::new();
+                let mut uris: Vec<String> = Vec::new();
+                let mut objs: Vec<i32> = Vec::new();
+                for v in vals {
+                    match v {
+                        PVal::ContentObj(t) => {
+                            types.push(2);
+                            objs.push(referent_of(t));
+                        }
+                        PVal::V(Variant::Content(c)) => match c.value() {
+                            rbx_types::ContentType::None => types.push(0),
+                            rbx_types::ContentType::Uri(u) => {
+                                types.push(1);
+                                uris.push(u.clone());
+                            }
+                            rbx_types::ContentType::Object(_) => return Err("use ContentObj for object content".into()),
+                            _ => return Err("content".into()),
+                        },
+                        other => return Err(format!("mixed column: {:?}", other)),
+                    }
+                }
+                if sw.content_impl {
+                    put_int32s(o, &types.iter().map(|x| *x as i32).collect::<Vec<_>>());
+                } else {
+                    put_u32s(o, &types);
+                }
+                o.extend_from_slice(&(uris.len() as u32).to_le_bytes());
+                for u in &uris {
+                    put_str(o, u.as_bytes());
+                }
+                o.extend_from_slice(&(objs.len() as u32).to_le_bytes());
+                put_referents(o, &objs);
+                o.extend_from_slice(&0u32.to_le_bytes());
+            }
+            other => return Err(format!("no encoder for type id {:#x}", other)),
+        }
+        Ok(())
+    }
+
+    /// Every choice the document leaves to the writer.
+    #[derive(Clone, Debug, serde::Serialize, serde::Deserialize)]
+    pub struct Encoding {
+        /// compression of the k-th chunk (cycled); END is always uncompressed
+        pub comp: Vec<Comp>,
+        /// class index (sorted class names) -> class id
+        pub class_ids: Vec<u32>,
+        /// order in which INST chunks are written (indices into sorted class names)
+        pub inst_order: Vec<usize>,
+        /// permutation index applied to the list of PROP chunks
+        pub prop_perm: usize,
+        /// plan node -> referent
+        pub referents: Vec<i32>,
+        /// order of the PRNT entries (plan node indices)
+        pub prnt_order: Vec<usize>,
+        /// column order inside a class: false = plan order, true = reversed
+        pub reverse_columns: bool,
+        pub meta: bool,
+        /// insert a chunk with an unknown name before the k-th chunk
+        pub unknown_chunk_at: Option<usize>,
+        /// classes (by name) written in the service object format
+        pub service_format: Vec<String>,
+        /// extra PROP chunks: (class index, property name, Some(type id) / None = cut after the name)
+        pub junk_props: Vec<(usize, String, Option<u8>)>,
+        /// position of the junk PROP chunks: before (false) or after (true) the real ones
+        pub junk_last: bool,
+        pub switches_impl: bool,
+    }
+
+    pub fn permutation(n: usize, mut k: usize) -> Vec<usize> {
+        let mut items: Vec<usize> = (0..n).collect();
+        let mut out = Vec::new();
+        for i in (1..=n).rev() {
+            let f: usize = (1..i).product::<usize>().max(1);
+            let idx = (k / f) % i;
+            k %= f;
+            out.push(items.remove(idx));
+        }
+        out
+    }
+
+    pub fn class_names(plan: &Plan) -> Vec<String> {
+        let mut c: Vec<String> = plan.nodes.iter().map(|n| n.class.clone()).collect();
+        c.sort();
+        c.dedup();
+        c
+    }
+
+    pub fn base_encoding(plan: &Plan) -> Encoding {
+        let classes = class_names(plan);
+        // post-order
+        let mut post = Vec::new();
+        fn po(plan: &Plan, p: Option<usize>, out: &mut Vec<usize>) {
+            for c in plan.children_of(p) {
+                po(plan, Some(c), out);
+                out.push(c);
+            }
+        }
+        po(plan, None, &mut post);
+        Encoding {
+            comp: vec![Comp::None],
+            class_ids: (0..classes.len() as u32).collect(),
+            inst_order: (0..classes.len()).collect(),
+            prop_perm: 0,
+            referents: (0..plan.nodes.len() as i32).collect(),
+            prnt_order: post,
+            reverse_columns: false,
+            meta: false,
+            unknown_chunk_at: None,
+            service_format: vec![],
+            junk_props: vec![],
+            junk_last: false,
+            switches_impl: true,
+        }
+    }
+
+    /// Encodes every node of the plan (the file's roots are the nodes without a parent).
+    pub fn encode(plan: &Plan, e: &Encoding) -> Result<Vec<u8>, String> {
+        let sw = if e.switches_impl { Switches { uniqueid_impl: true, faces_impl: true, content_impl: true } } else { Switches::default() };
+        let classes = class_names(plan);
+        let referent_of = |t: &Tgt| -> i32 {
+            match t {
+                Tgt::Null | Tgt::Ghost => -1,
+                Tgt::Node(i) => e.referents[*i],
+            }
+        };
+        // shared strings: distinct contents in first-use order
+        let mut sstr: Vec<Vec<u8>> = Vec::new();
+        for n in &plan.nodes {
+            for (_, v) in &n.props {
+                if let PVal::Shared(b) = v {
+                    if !sstr.contains(b) {
+                        sstr.push(b.clone());
+                    }
+                }
+            }
+        }
+        let sstr_index = |b: &[u8]| -> u32 { sstr.iter().position(|x| x.as_slice() == b).unwrap() as u32 };
+        let mut chunks: Vec<([u8; 4], Vec<u8>)> = Vec::new();
+        if e.meta {
+            let mut d = Vec::new();
+            d.extend_from_slice(&1u32.to_le_bytes());
+            put_str(&mut d, b"ExplicitAutoJoints");
+            put_str(&mut d, b"true");
+            chunks.push((*b"META", d));
+        }
+        if !sstr.is_empty() {
+            let mut d = Vec::new();
+            d.extend_from_slice(&0u32.to_le_bytes());
+            d.extend_from_slice(&(sstr.len() as u32).to_le_bytes());
+            for s in &sstr {
+                d.extend_from_slice(&[0u8; 16]);
+                put_str(&mut d, s);
+            }
+            chunks.push((*b"SSTR", d));
+        }
+        // columns
+        let column = |ci: usize| -> Vec<usize> {
+            let mut v: Vec<usize> = (0..plan.nodes.len()).filter(|i| plan.nodes[*i].class == classes[ci]).collect();
+            if e.reverse_columns {
+                v.reverse();
+            }
+            v
+        };
+        for &ci in &e.inst_order {
+            let col = column(ci);
+            let service = e.service_format.contains(&classes[ci]);
+            let mut d = Vec::new();
+            d.extend_from_slice(&e.class_ids[ci].to_le_bytes());
+            put_str(&mut d, classes[ci].as_bytes());
+            d.push(service as u8);
+            d.extend_from_slice(&(col.len() as u32).to_le_bytes());
+            put_referents(&mut d, &col.iter().map(|i| e.referents[*i]).collect::<Vec<_>>());
+            if service {
+                d.extend(std::iter::repeat(1u8).take(col.len()));
+            }
+            chunks.push((*b"INST", d));
+        }
+        // PROP chunks
+        let mut props: Vec<Vec<u8>> = Vec::new();
+        for ci in 0..classes.len() {
+            let col = column(ci);
+            let mut names: Vec<String> = Vec::new();
+            for i in &col {
+                for (k, _) in &plan.nodes[*i].props {
+                    if !names.contains(k) {
+                        names.push(k.clone());
+                    }
+                }
+            }
+            // Name is an ordinary String property
+            {
+                let mut d = Vec::new();
+                d.extend_from_slice(&e.class_ids[ci].to_le_bytes());
+                put_str(&mut d, b"Name");
+                d.push(0x01);
+                for i in &col {
+                    put_str(&mut d, plan.nodes[*i].name.as_bytes());
+                }
+                props.push(d);
+            }
+            for name in names {
+                let vals: Vec<&PVal> = col
+                    .iter()
+                    .map(|i| plan.nodes[*i].props.iter().find(|(k, _)| *k == name).map(|(_, v)| v))
+                    .collect::<Option<Vec<_>>>()
+                    .ok_or(format!("property {} is not carried by every instance of {}", name, classes[ci]))?;
+                let tid = type_id_of(vals[0]).ok_or("unencodable value")?;
+                let mut d = Vec::new();
+                d.extend_from_slice(&e.class_ids[ci].to_le_bytes());
+                put_str(&mut d, name.as_bytes());
+                d.push(tid);
+                encode_values(&mut d, tid, &vals, &referent_of, &sstr_index, sw)?;
+                props.push(d);
+            }
+        }
+        let perm = permutation(props.len(), e.prop_perm);
+        let mut ordered: Vec<Vec<u8>> = perm.iter().map(|i| props[*i].clone()).collect();
+        let mut junk: Vec<Vec<u8>> = Vec::new();
+        for (ci, name, tid) in &e.junk_props {
+            let mut d = Vec::new();
+            d.extend_from_slice(&e.class_ids[*ci].to_le_bytes());
+            put_str(&mut d, name.as_bytes());
+            if let Some(t) = tid {
+                d.push(*t);
+                // some bytes a future type might use
+                d.extend_from_slice(&[0xde, 0xad, 0xbe, 0xef, 0x01]);
+            }
+            junk.push(d);
+        }
+        if e.junk_last {
+            ordered.extend(junk);
+        } else {
+            junk.extend(ordered);
+            ordered = junk;
+        }
+        for d in ordered {
+            chunks.push((*b"PROP", d));
+        }
+        // PRNT
+        {
+            let mut d = vec![0u8];
+            d.extend_from_slice(&(e.prnt_order.len() as u32).to_le_bytes());
+            put_referents(&mut d, &e.prnt_order.iter().map(|i| e.referents[*i]).collect::<Vec<_>>());
+            put_referents(&mut d, &e.prnt_order.iter().map(|i| match plan.nodes[*i].parent { Some(p) => e.referents[p], None => -1 }).collect::<Vec<_>>());
+            chunks.push((*b"PRNT", d));
+        }
+        // assemble
+        let mut out = Vec::new();
+        out.extend_from_slice(b"<roblox!");
+        out.extend_from_slice(&[0x89, 0xff, 0x0d, 0x0a, 0x1a, 0x0a]);
+        out.extend_from_slice(&0u16.to_le_bytes());
+        out.extend_from_slice(&(classes.len() as u32).to_le_bytes());
+        out.extend_from_slice(&(plan.nodes.len() as u32).to_le_bytes());
+        out.extend_from_slice(&[0u8; 8]);
+        for (k, (name, data)) in chunks.iter().enumerate() {
+            if e.unknown_chunk_at == Some(k) {
+                out.extend(frame_chunk(b"ZZZZ", b"an unknown chunk", e.comp[k % e.comp.len()]));
+            }
+            out.extend(frame_chunk(name, data, e.comp[k % e.comp.len()]));
+        }
+        if e.unknown_chunk_at == Some(chunks.len()) {
+            out.extend(frame_chunk(b"ZZZZ", b"an unknown chunk", Comp::None));
+        }
+        out.extend(frame_chunk(b"END\0", b"</roblox>", Comp::None));
+        Ok(out)
+    }
+
+    pub fn chunk_count(plan: &Plan, e: &Encoding) -> usize {
+        // number of chunks before END
+        split_chunks(&encode(plan, e).unwrap_or_default()).map(|x| x.2.len().saturating_sub(1)).unwrap_or(0)
+    }
+}
